@@ -5,7 +5,7 @@ use crate::run::*;
 use crate::shrink::shrink;
 use crate::tape::mix;
 use crate::world::*;
-use crate::zoo::{N_TYPES, TYPE_NAMES};
+use crate::zoo::{type_name, N_HAND, N_TYPES};
 use crate::{c06, c10, with_zoo_type};
 use serde::Deserialize;
 use std::collections::HashSet;
@@ -90,17 +90,18 @@ struct Tier {
 }
 
 fn tier_of(prop: &str, tier: &str, scale: f64) -> Tier {
+    // seeded jobs per hand-written type and world; the generated families get the same total
     let base: u64 = match (prop, tier) {
-        ("C06", "quick") => 150,
-        ("C06", _) => 12_000,
-        ("C07", "quick") => 80_000,
-        ("C07", _) => 6_000_000,
-        ("C08", "quick") => 80_000,
-        ("C08", _) => 6_000_000,
-        ("C09", "quick") => 40_000,
-        ("C09", _) => 3_000_000,
-        ("C10", "quick") => 50_000,
-        ("C10", _) => 4_000_000,
+        ("C06", "quick") => 120,
+        ("C06", _) => 8_000,
+        ("C07", "quick") => 50_000,
+        ("C07", _) => 3_000_000,
+        ("C08", "quick") => 50_000,
+        ("C08", _) => 3_000_000,
+        ("C09", "quick") => 25_000,
+        ("C09", _) => 1_500_000,
+        ("C10", "quick") => 30_000,
+        ("C10", _) => 2_000_000,
         _ => 1000,
     };
     Tier { per_type: ((base as f64 * scale) as u64).max(1) }
@@ -121,7 +122,7 @@ fn base_scenario(prop: &str, world: WorldKind, backend: &str, ty: usize, seed: u
         world,
         backend: backend.to_string(),
         type_index: ty,
-        type_name: TYPE_NAMES[ty].to_string(),
+        type_name: type_name(ty).to_string(),
         seed,
         tape: None,
         aux: Aux::default(),
@@ -131,12 +132,23 @@ fn base_scenario(prop: &str, world: WorldKind, backend: &str, ty: usize, seed: u
     }
 }
 
+/// Half of the jobs go to the 24 hand-written types (special shapes: FlexVec, portable, nested,
+/// arrays ...), half to the 128 generated family instantiations.
+pub fn job_type(idx: u64) -> usize {
+    let slot = idx % (2 * N_HAND as u64);
+    if slot < N_HAND as u64 {
+        slot as usize
+    } else {
+        N_HAND + ((idx / (2 * N_HAND as u64)) * N_HAND as u64 + (slot - N_HAND as u64)) as usize % crate::zoo_gen_list::N_GEN
+    }
+}
+
 /// Job `idx` of the seeded layer -> the scenarios it consists of.
 fn seeded_job(prop: &str, backend: &str, check_seed: u64, idx: u64) -> Vec<Scenario> {
     let worlds = worlds_of(prop);
     let nw = worlds.len() as u64;
-    let ty = (idx % N_TYPES as u64) as usize;
-    let world = worlds[((idx / N_TYPES as u64) % nw) as usize];
+    let ty = job_type(idx);
+    let world = worlds[((idx / (2 * N_HAND as u64)) % nw) as usize];
     let run_seed = mix(mix(check_seed, prop.as_bytes().iter().fold(0u64, |a, b| a * 131 + *b as u64)), idx);
     let sc = base_scenario(prop, world, backend, ty, run_seed);
     match prop {
@@ -269,7 +281,7 @@ pub fn run_check(prop: &str, tier: &str, seed: u64, workers: usize, backend: &st
         }
     }
     let tr = tier_of(prop, tier, scale);
-    let n_seeded = tr.per_type * N_TYPES as u64 * worlds_of(prop).len() as u64;
+    let n_seeded = tr.per_type * 2 * N_HAND as u64 * worlds_of(prop).len() as u64;
     // systematic layers are appended after the seeded jobs
     let sys: Vec<Scenario> = match prop {
         "C09" => crate::c10::systematic_c09(backend, seed, tier),
@@ -604,7 +616,7 @@ pub fn run_sequential(prop: &str, runs: u64, seed: u64, backend: &str, first: u6
     let mut n = 0u64;
     let mut nontrivial = 0u64;
     for idx in first..first + runs {
-        let tyname = TYPE_NAMES[(idx % N_TYPES as u64) as usize];
+        let tyname = type_name(job_type(idx));
         if cfg!(miri) && (tyname == "Fixed" || tyname == "FixedE") {
             continue;
         }
@@ -681,7 +693,7 @@ fn write_evidence(prop: &str, tier: &str, seed: u64, agg: &Agg, wall: f64, viola
             zero.push(name.to_string());
         }
     }
-    let per_type: serde_json::Map<String, serde_json::Value> = TYPE_NAMES.iter().zip(agg.per_type.iter()).map(|(n, c)| (n.to_string(), (*c).into())).collect();
+    let per_type: serde_json::Map<String, serde_json::Value> = (0..N_TYPES).map(|i| (type_name(i).to_string(), agg.per_type[i].into())).collect();
     let rule = match prop {
         "C06" => "values are drawn by seed per message type; for each value EVERY cut position k in 0..size() (sender crash after k bytes) and EVERY suffix length j in 0..=2*ALIGN+8 of 4 suffix families (next valid message, zeros, 0xFF, seeded garbage) is one run, in the blocking and the async world, with 0-2 whole messages in front; a run is non-trivial when the receiver was driven over a non-empty stream; distinct = distinct event-log hashes (party, op, outcome, byte counts) per message type",
         "C07" => "one run = one seed: message type, 0-8 generated messages (all container fills, builder ops), max_msg_len of both ends, pipe capacity, write/read chunk sizes and the interleaving of the two blocking parties are all drawn from it; plus a systematic two-chunk split sweep; non-trivial = at least one message delivered; distinct = distinct event-log hashes (party, op, outcome kind, byte counts) per message type",
@@ -766,7 +778,7 @@ fn selftest_zoo_quiet() -> Result<(), String> {
             use crate::c06::zoo_roundtrip;
             with_zoo_type!(ty, zoo_roundtrip, 40)
         };
-        r.map_err(|e| format!("{}: {}", TYPE_NAMES[ty], e))?;
+        r.map_err(|e| format!("{}: {}", type_name(ty), e))?;
     }
     Ok(())
 }
